@@ -23,6 +23,11 @@ def leaf(rng, labs, allow=("label", "var", "dict", "model")):
         if rng.random() < 0.5:
             return {tuple(ls): 1}, f, "{%s}" % "*".join(map(repr, ls))
         return L.sat.AND(*ls), f, "AND(%s)" % ", ".join(map(repr, ls))
+    if how == "dict" and len(labs) >= 2 and rng.random() < 0.2:
+        # a plain dict may spell one monomial under several keys (key order is free): x XOR y with the product written both ways
+        l2 = rng.choice([x for x in labs if x != l] or [l])
+        if l2 != l:
+            return ({(l,): 1, (l2,): 1, (l, l2): -1, (l2, l): -1}, (lambda x, l=l, l2=l2: x[l] ^ x[l2]), "{%r xor %r, product spelled twice}" % (l, l2))
     if how == "dict":
         l2 = rng.choice(labs)
         if l2 == l:
